@@ -17,7 +17,12 @@ CHECKS = {
         "shards": {"quick": 16, "thorough": 32},
         "budget": {"quick": 40, "thorough": 420},
         "rule": GEN_RULE + "; here both readers are run on the same input and start offset and compared "
-                           "(value, tell, _sizes, layout), plus cut inputs for contradiction",
+                           "(value, tell, _sizes, layout), plus cut inputs for contradiction; start offsets 0, a multiple of "
+                           "16 and an odd one (also for aligned structures: position dependent there, but equally in "
+                           "both readers); after the comparisons the byte order of both cstruct objects is switched and "
+                           "the readers compared again; declarations loaded one by one with differing align flags "
+                           "(aligned structures inside packed ones and the reverse); structures built through the API "
+                           "with explicit offsets",
         "anchors": ["compiler.py", "types/structure.py"],
         "required_reach": [
             "<compiled>",
@@ -30,7 +35,7 @@ CHECKS = {
             "types/structure.py:StructureMetaType._read",
         ],
         "required_cells": ["compiled:True", "fallback", "align:True", "align:False", "endian:<", "endian:>",
-                           "explicit-offsets"],
+                           "explicit-offsets", "mixed-modes"],
         "assumptions": ASSUME_COMMON,
     },
 }
@@ -158,7 +163,8 @@ CHECKS["C09"] = {
     "required_reach": ["types/base.py:MetaType.__call__", "types/base.py:MetaType.read", "types/base.py:MetaType.reads",
                        "cstruct.py:cstruct.read", "types/base.py:_is_eof", "types/structure.py:UnionMetaType._read_fields",
                        "<compiled>"],
-    "required_cells": ["align:True", "align:False", "offsets", "dynamic-union", "form:T.reads(memoryview)",
+    "required_cells": ["align:True", "align:False", "offsets", "dynamic-union", "top-level-union:static",
+                       "top-level-union:dynamic", "form:T.reads(memoryview)",
                        "form:cs.read(name, BytesIO)", "char-shortcut", "direct:buffered-file",
                        "direct:unbuffered-file", "direct:BytesIO"],
     "assumptions": ASSUME_COMMON,
@@ -202,7 +208,7 @@ CHECKS["C10"] = {
     "required_reach": ["expression.py:Expression.evaluate", "expression.py:Expression.evaluate_exp",
                        "expression.py:ExpressionTokenizer.tokenize", "types/base.py:BaseArray._read",
                        "parser.py:TokenParser._enum", "parser.py:TokenParser._constant"],
-    "required_cells": ["exhaustive", "random", "literal-forms", "in-situ"],
+    "required_cells": ["exhaustive", "random", "literal-forms", "in-situ", "c-compiler"],
     "exhaustive": {"quick": False, "thorough": False},
     "assumptions": ASSUME_COMMON + ["the reference evaluator vf/refexpr.py is the C-precedence specification"],
 }
@@ -263,7 +269,7 @@ CHECKS["C19"] = {
                        "utils.py:pack", "utils.py:unpack", "utils.py:swap", "utils.py:p8", "utils.py:u64",
                        "utils.py:swap16", "utils.py:swap32", "utils.py:swap64"],
     "required_cells": ["len%16=0", "len%16=1", "len%16=15", "palette:zeros", "palette:long", "palette:short",
-                       "palette:lineends", "dumpstruct:bits", "dumpstruct:plain", "pack:network", "pack:!", "pack:<"],
+                       "palette:lineends", "dumpstruct:bits", "dumpstruct:plain", "pack:network", "pack:!", "pack:<", "pack:odd-width"],
     "assumptions": ASSUME_COMMON,
 }
 
@@ -280,6 +286,7 @@ CHECKS["C20"] = {
     "required_reach": ["tools/stubgen.py:generate_cstruct_stub", "tools/stubgen.py:generate_structure_stub",
                        "tools/stubgen.py:generate_enum_stub", "tools/stubgen.py:generate_typehint"],
     "required_cells": ["form:anonymous-enum", "form:array-typedef", "form:keyword-field", "form:string-const",
+                       "form:enum-and-flag-aliases", "form:tagged-inline-members",
                        "form:nested-anon-array", "form:string-alias", "feat:union", "feat:nested", "feat:enum"],
     "assumptions": ASSUME_COMMON + ["ast.parse decides syntactic validity"],
 }
@@ -327,7 +334,8 @@ CHECKS["C16"] = {
                        "types/pointer.py:Pointer.__add__", "cstruct.py:cstruct._make_pointer", "<compiled>"],
     "required_cells": ["width:uint8", "width:uint16", "width:uint24", "width:uint32", "width:uint48", "width:uint64",
                        "target:char", "target:struct", "target:ptrptr", "reader:compiled", "reader:interpreted",
-                       "endian:>"],
+                       "endian:>", "reconfigured-width", "context-target:first", "context-target:last",
+                       "context-target:both"],
     "assumptions": ASSUME_COMMON,
 }
 
@@ -410,7 +418,8 @@ CHECKS["C18"] = {
                        "types/structure.py:StructureMetaType.commit", "types/structure.py:StructureMetaType._update_fields",
                        "parser.py:TokenParser._struct", "compiler.py:Compiler.compile_read"],
     "required_cells": ["pattern:all-single", "pattern:mixed", "transition:becomes-dynamic", "transition:gains-bit-fields",
-                       "transition:alignment-grows", "self-reference"],
+                       "transition:alignment-grows", "self-reference", "instances-exist-before-extension",
+                       "batch-left-by-exception"],
     "assumptions": ASSUME_COMMON,
 }
 
@@ -624,8 +633,9 @@ MANIFEST_TEXT = {
     "C03": {
         "text": "Differential runtime monitoring: every generated definition is loaded twice (compiled/interpreted) in "
                 "each endianness x alignment x pointer width and both real readers are executed on model-built and "
-                "arbitrary inputs, at two start offsets and on cut inputs; values, consumed bytes, _sizes and layout "
-                "are compared. Held-on-observed only; reach of the source generator's branches is measured and a run "
+                "arbitrary inputs, at three start offsets (0, aligned, odd) and on cut inputs; values, consumed bytes, "
+                "_sizes and layout are compared; then again after switching the byte order of the loaded objects, and "
+                "for declarations loaded with mixed align flags. Held-on-observed only; reach of the source generator's branches is measured and a run "
                 "without compiled readers is inconclusive.",
         "design_ref": "DESIGN.md 4 C03",
         "note": "trusts the interpreted reader only as the other side of the comparison (its own correctness is "
